@@ -4,7 +4,7 @@
 CMDS=$1; OUT=$2
 while IFS='|' read -r px demo checks; do
   pid=${px% *}; x=${px#* }
-  case $x in A|B) sd=SEED;; C|D) sd=SEED2;; E|F) sd=SEED3;; G|H) sd=SEED4;; *) sd=SEED5;; esac
+  case $x in A|B) sd=SEED;; C|D) sd=SEED2;; E|F) sd=SEED3;; G|H) sd=SEED4;; I|J) sd=SEED5;; *) sd=SEED6;; esac
   v=$(/verif/verifyseed.sh $pid $x "$demo" 2>&1 | grep -E "rc=|baseline|does not apply|^ok$" | tr '\n' ' ')
   echo "VERIFY $pid $x: $v" >> $OUT
   case "$v" in *"rc=0 ok baseline: 272/272 stable tests pass rc=1"*) ;; *) echo "  (verification NOT as expected, skipping checks)" >> $OUT; continue;; esac
